@@ -59,8 +59,14 @@ type Sim struct {
 	// Passive: directed (i,j): j's regular sync Interests reach i under the passive prefix (i is
 	// not configured on j as an explicit neighbour). Static per configuration.
 	Passive map[[2]int]bool
-	byName  map[string]int
-	byHash  map[uint64]int
+	// Parallel: links (i<j) that consist of two parallel faces; successive sync Interests of the
+	// neighbour arrive on alternating faces. Static per configuration.
+	Parallel map[[2]int]bool
+	Opt      Options
+	// BootErrors: routers whose start-up (what Router.Start does before its loop) failed
+	BootErrors []string
+	byName     map[string]int
+	byHash     map[uint64]int
 	// Universe is the set of application prefixes the harness may announce (C19)
 	Universe map[string]bool
 
@@ -90,6 +96,8 @@ type Options struct {
 	// RouterPrefix is the name prefix of the routers (router i is <RouterPrefix>/r<i>); default
 	// Network ("/ndn"), i.e. two-component router names.
 	RouterPrefix string
+	// Network is the network name all routers share (default "/ndn").
+	Network string
 	// Nested makes every router name an extension of the previous one: r0 = <prefix>/r0,
 	// r1 = <prefix>/r0/x1, r2 = <prefix>/r0/x1/x2, ... (names in a prefix relation).
 	Nested bool
@@ -100,12 +108,15 @@ func NewSim(g Graph) *Sim { return NewSimOpt(g, Options{}) }
 
 // NewSimOpt builds N fresh routers. Nothing has been exchanged yet: every router knows only itself.
 func NewSimOpt(g Graph, o Options) *Sim {
+	if o.Network == "" {
+		o.Network = Network
+	}
 	if o.RouterPrefix == "" {
-		o.RouterPrefix = Network
+		o.RouterPrefix = o.Network
 	}
 	vtime.Reset(true) // timers armed by the code under test (none in the unchanged tree) fire when the clock passes them
 	vsched.Reset()
-	s := &Sim{G: g, Live: map[[2]int]bool{}, Alt: map[[2]int]bool{}, Passive: map[[2]int]bool{}, byName: map[string]int{}, byHash: map[uint64]int{}, Universe: map[string]bool{}, TaskCap: 100000}
+	s := &Sim{G: g, Opt: o, Parallel: map[[2]int]bool{}, Live: map[[2]int]bool{}, Alt: map[[2]int]bool{}, Passive: map[[2]int]bool{}, byName: map[string]int{}, byHash: map[uint64]int{}, Universe: map[string]bool{}, TaskCap: 100000}
 	for _, e := range g.Edges {
 		s.Live[e] = true
 	}
@@ -134,7 +145,7 @@ func NewSimOpt(g Graph, o Options) *Sim {
 func (s *Sim) boot(i int) {
 	n := s.Nodes[i]
 	cfg := config.DefaultConfig()
-	cfg.Network = Network
+	cfg.Network = s.Opt.Network
 	cfg.Router = n.NameStr
 	n.Cfg = cfg
 	if n.DV != nil {
@@ -159,7 +170,9 @@ func (s *Sim) boot(i int) {
 	}
 	n.PubCur = map[string]bool{}
 	if err := r.VerifBoot(); err != nil {
-		panic(fmt.Sprintf("VerifBoot: %v", err))
+		// Router.Start would return this error: the router never runs. Recorded, not fatal for the
+		// harness: the rest of the network goes on without it.
+		s.BootErrors = append(s.BootErrors, fmt.Sprintf("r%d (%s, network %s): %v", i, n.NameStr, s.Opt.Network, err))
 	}
 	vsched.SetContext(old)
 	s.RunTasks()
@@ -489,6 +502,14 @@ func (s *Sim) endOp() {
 // Ping delivers router j's current advertisement-sync Interest (built by j's real heartbeat code)
 // to router i on the face of link (i,j). Any fetch it triggers stays parked in i's outbox.
 func (s *Sim) Ping(i, j int, active bool) {
+	if s.Parallel[key(i, j)] {
+		// two parallel faces: this sync Interest arrives on the one the previous did not use
+		if s.Alt[[2]int{i, j}] {
+			delete(s.Alt, [2]int{i, j})
+		} else {
+			s.Alt[[2]int{i, j}] = true
+		}
+	}
 	nj := s.Nodes[j]
 	old := vsched.SetContext(fmt.Sprintf("r%d", j))
 	if err := nj.DV.VerifHeartbeat(); err != nil {
